@@ -110,6 +110,17 @@ static uint32_t base_blocks; static uint64_t base_bytes;
 static void measure_baseline(void) { vf_world_reset(); pev e = ev_reset(0, ST_M1); vf_trace_clear(); drv_linux(&e, 0); base_blocks = vf_live_blocks(); base_bytes = vf_live_bytes(); vf_world_reset(); }
 static int nodes19(void) { int n = (int)vf_live_blocks() - (M.first_frame_seen ? (int)base_blocks : 0) - M.icon_cached; return n < 0 ? 0 : n; }
 
+/* More was retained than one observation node / one icon: it is still part of the bounded retained state (and not a buffer the
+ * handler forgot) if a topology Reset gives it back.  Tried on a copy of the state. */
+static int reclaimed_by_reset(void) {
+    vf_snap *sn = vf_snapshot(&M, sizeof M);
+    uint32_t nt = W.ntrace, tu = W.trace_used, to = W.trace_overflow, st = W.sends_total;
+    pev e = ev_reset(0, ST_M1); drv_linux(&e, 0);
+    int ok = vf_live_blocks() <= base_blocks && vf_live_bytes() <= base_bytes;
+    vf_restore(sn, &M, sizeof M); free(sn);
+    W.ntrace = nt; W.trace_used = tu; W.trace_overflow = to; W.sends_total = st;
+    return ok;
+}
 static void apply(int ev) {
     pev q; int is_query = 0; int allowed_retain = 0;
     serial0 = vf_alloc_serial();
@@ -149,7 +160,7 @@ static void apply(int ev) {
     if (mode == 19) {
         newblocks = 0; newbytes = 0; vf_each_live(count_new, NULL);
         uint32_t allow = (uint32_t)allowed_retain + (M.first_frame_seen ? 0u : base_blocks);
-        if (newblocks > allow) {
+        if (newblocks > allow && !reclaimed_by_reset()) {
             char sig[96]; snprintf(sig, sizeof sig, "handler-retains-buffer:%s", ENAME[ev]);
             vf_violation(sig, "%s: %u block(s) (%llu bytes) allocated while handling the frame are still live afterwards; at most %u can belong to the bounded retained state", ENAME[ev], newblocks, (unsigned long long)newbytes, allow);
         }
@@ -351,9 +362,17 @@ static void mm_apply(int ev) {
     }
     MM.seen[i] = 1;
     uint32_t expect = 0; for (int j = 0; j < NIF; j++) expect += MM.seen[j] * base_blocks + MM.nodes[j] + MM.icon[j];
-    if (vf_live_blocks() != expect) {
-        char nm[64]; mm_name(ev, nm, sizeof nm);
-        vf_violation(vf_live_blocks() > expect ? "multi-interface:retention-exceeds-state" : "multi-interface:retained-state-lost", "after [%s]: %u blocks are allocated, the responder's state accounts for %u (per interface seen: the record, its outstanding observations, its cached icon)", nm, vf_live_blocks(), expect);
+    if (vf_live_blocks() > expect) {
+        /* more than one block per record / observation / icon: legitimate retained state only if topology Resets on every interface give it back */
+        uint32_t had = vf_live_blocks();
+        vf_snap *sn = vf_snapshot(&MM, sizeof MM);
+        uint32_t seen = 0; for (int j = 0; j < NIF; j++) if (MM.seen[j]) { pev r = ev_reset(0, ST_M1); drv_linux(&r, j); seen++; }
+        uint32_t residue = vf_live_blocks();
+        vf_restore(sn, &MM, sizeof MM); free(sn);
+        if (residue > seen * base_blocks) {
+            char nm[64]; mm_name(ev, nm, sizeof nm);
+            vf_violation("multi-interface:retention-exceeds-state", "after [%s]: %u blocks are allocated, the responder's state accounts for %u (per interface seen: the record, its outstanding observations, its cached icon), and topology Resets on all %u interfaces still leave %u blocks (%u records expected)", nm, had, expect, seen, residue, seen * base_blocks);
+        }
     }
 }
 
